@@ -50,10 +50,19 @@ def sched_arr(length=None):
 
 
 def make_reservoir(ctx, cls, fluid, extra=None):
+    """a reservoir as callers can have it: built by the real constructor (dataclass __init__ + __post_init__) from one
+    set of values, after which the public fields are REASSIGNED (the dataclass is not frozen: a drawdown sweep re-uses one
+    object).  Methods must follow the current attributes, so anything captured at construction shows.  `extra`: further
+    state (times, field, cache) as earlier calls would have left it."""
     C = ctx.engine.cls(RES + cls)
-    r = ObjV(C)
-    r.fields = {"nx": nx, "pressure_fracface": pf, "pressure_initial": p_init, "fluid": fluid}
+    init = [tm.var("nx_at_construction", tm.I), tm.var("pf_at_construction"), tm.var("pi_at_construction"), fluid]
+    outs = [o_ for o_ in ctx.engine.run_paths(C, init, pc=[tm.ge(init[0], tm.const(3))]) if o_.kind == "return"]
+    if len(outs) != 1 or not isinstance(outs[0].value, ObjV):
+        raise sx.OutOfSubset(f"{cls}(...): expected one constructed object, found {len(outs)} returning paths")
+    r = outs[0].value
+    r.fields.update({"nx": nx, "pressure_fracface": pf, "pressure_initial": p_init, "fluid": fluid})
     r.fields.update(extra or {})
+    r.writes = []
     return r
 
 
@@ -199,7 +208,7 @@ def inr(j, n):
     return tm.land(tm.le(tm.const(0), j), tm.lt(j, n))
 
 
-def dependency_obligations(ctx, which=("build_matrix", "solve", "alpha", "mscaled", "twophase")):
+def dependency_obligations(ctx, which=("build_matrix", "solve", "alpha", "mscaled", "twophase", "mesh")):
     """the callee / data-structure contracts a reservoir proof rests on, re-verified inside the dependent check
     (a change inside a callee is noticed by the callee's own obligation, under the dependent property's id)"""
     from . import c04, c09
@@ -215,6 +224,8 @@ def dependency_obligations(ctx, which=("build_matrix", "solve", "alpha", "mscale
         want += [("c09", "init.mscaled_increasing.long"), ("c09", "init.frame")]
     if "twophase" in which:
         want += [("c04", "twophase.delegates")]
+    if "mesh" in which:
+        want += [("c04", "ideal.step.mesh_ratio"), ("c04", "single.step.mesh_ratio")]
     built = {}
     for modname, oid in want:
         if modname not in built:
